@@ -9,6 +9,11 @@ package c06
 // answers*: truthfully, with an error, with a stale latest header, with a corrupted / forged block or with the block of
 // a pre-reorg branch. The source chain itself is changed by explorer-chosen reorg steps (any fork height, several new
 // lengths) at any quiescent point, and the minute ticker of pollLatest is fired by an explicit "advance time" event.
+// The official sync.EventListener seam is an environment interaction too: every OnSyncStepDone / OnReorg callback is a
+// parkable scheduling point. By default it returns at once; the explorer may (one deviation) arm a hold on the next
+// callback of a class (store / reorg; thorough: also verify / fetch / reorgCheck) at a height, which then parks inside
+// the pipeline - e.g. between blockchain.Store and the notifications of the same storeTask - while data-source answers
+// and source steps go on; letting it return is free. Parked callbacks are identified by class/height.
 //
 // A source chain is a string of branch digits, one per height ("00011" = blocks 0..2 of branch 0, then two blocks
 // created by script step 1); the block at height h is the prefix of length h+1. Blocks come from verif/mc/chain
@@ -41,6 +46,7 @@ import (
 	"runtime"
 	"sort"
 	"strings"
+	stdsync "sync"
 	"sync/atomic"
 	"testing"
 	"testing/synctest"
@@ -195,6 +201,32 @@ type evt struct {
 	O byte  //   (O,H) = request: origin 'p' pollLatest, 'v' isReverting, 'f' fetcherTask, 'r' revertTask; height
 	H uint8 // 'R' source step: H = fork height, V = new branch length; 'A' advance time one minute
 	V uint8 // variant
+	// 'H' arm a hold on the next listener callback (O = class, H = height): the callback parks when it happens;
+	// 'U' let the parked listener callback (O = class, H = height) return
+}
+
+// listener callback classes (the official sync.EventListener seam)
+const (
+	lStore  = 's' // OnSyncStepDone(OpStore, n): after blockchain.Store and Persisted<-nil, BEFORE the notifications
+	lVerify = 'y' // OnSyncStepDone(OpVerify, n)
+	lFetch  = 'e' // OnSyncStepDone(OpFetch, n)
+	lCheck  = 'k' // OnSyncStepDone(OpReorgCheck{Fast,Remote,Local}, n)
+	lReorg  = 'g' // OnReorg(n): inside revertHead, after RevertHead and the currReorg update
+)
+
+var listenerName = map[byte]string{lStore: "OnSyncStepDone(store", lVerify: "OnSyncStepDone(verify", lFetch: "OnSyncStepDone(fetch",
+	lCheck: "OnSyncStepDone(reorgCheck", lReorg: "OnReorg("}
+
+func listenerClass(op string) byte {
+	switch op {
+	case jsync.OpStore:
+		return lStore
+	case jsync.OpVerify:
+		return lVerify
+	case jsync.OpFetch:
+		return lFetch
+	}
+	return lCheck
 }
 
 func (e evt) String() string {
@@ -229,6 +261,10 @@ func (e evt) String() string {
 		return fmt.Sprintf("source-step(fork=%d,new=%d)", e.H, e.V)
 	case 'A':
 		return "advance-1min"
+	case 'H':
+		return fmt.Sprintf("hold-next %s,%d)", listenerName[e.O], e.H)
+	case 'U':
+		return fmt.Sprintf("return-from %s,%d)", listenerName[e.O], e.H)
 	}
 	return "?"
 }
@@ -253,6 +289,10 @@ func (e evt) kindLabel() string {
 		return "source-step"
 	case 'A':
 		return "advance"
+	case 'H':
+		return "hold-listener"
+	case 'U':
+		return "release-listener"
 	}
 	return "?"
 }
@@ -264,7 +304,8 @@ type config struct {
 	steps    int  // number of source steps (reorg / growth) the explorer may fire
 	maxLen   int  // maximum source length
 	variants []int
-	k        int // deviation bound
+	holds    []byte // listener callback classes the explorer may hold
+	k        int    // deviation bound
 }
 
 func (c *config) String() string {
@@ -281,14 +322,20 @@ type reply struct {
 }
 
 type req struct {
-	origin byte
+	origin byte // 'p','v','f','r' data-source calls; 'L' parked listener callback
+	op     byte // listener class for origin 'L'
 	h      uint64
 	ctx    context.Context
 	reply  chan reply
 	seq    int
 }
 
-func (r *req) code() string { return fmt.Sprintf("%c%d", r.origin, r.h) }
+func (r *req) code() string {
+	if r.origin == 'L' {
+		return fmt.Sprintf("L%c%d", r.op, r.h)
+	}
+	return fmt.Sprintf("%c%d", r.origin, r.h)
+}
 
 type source struct {
 	calls chan *req
@@ -401,6 +448,11 @@ type violation struct {
 	detail map[string]any
 }
 
+type pendHead struct {
+	hash     felt.Felt
+	reverted bool // the block was reverted while its announcement was still pending
+}
+
 type revRun struct {
 	startNum, endNum   uint64
 	startHash, endHash felt.Felt
@@ -419,6 +471,11 @@ type world struct {
 	heads chan *core.Block
 	reorg chan *jsync.ReorgBlockRange
 
+	mu       stdsync.Mutex   // guards log / armed / shutdown: listener callbacks come from several goroutines
+	armed    map[string]bool // listener callbacks ("s3" = class store, height 3) that will park when they happen
+	parked   []*req          // listener callbacks currently parked, in arrival order
+	shutdown bool
+
 	out    []*req
 	held   []*served
 	nseq   int
@@ -430,6 +487,8 @@ type world struct {
 	headHash   felt.Felt
 	local      string // names of the stored blocks ("" = empty); "?" suffix if unknown
 	run        *revRun
+	pendHeads  []pendHead // stored blocks whose new-head notification has not been emitted yet
+	pendReorgs []revRun   // reverted ranges closed by a store whose reorg notification has not been emitted yet
 	last       evt
 	path       []evt
 	viols      []*violation
@@ -498,6 +557,11 @@ func (w *world) observe() {
 	for _, r := range fresh {
 		w.nseq++
 		r.seq = w.nseq
+		if r.origin == 'L' {
+			w.stats["listener_callbacks_parked"]++
+			w.parked = append(w.parked, r)
+			continue
+		}
 		if r.origin == '?' {
 			w.infra = "data source called from an unknown place"
 		}
@@ -564,6 +628,10 @@ func (w *world) enabled() (evs []evt, costs []uint8) {
 	}
 	add := func(e evt, c uint8) { evs = append(evs, e); costs = append(costs, c) }
 	cur := w.cur()
+	// a parked listener callback may return at any time for free; returning the oldest one is the default
+	for _, p := range w.parked {
+		add(evt{K: 'U', O: p.op, H: uint8(p.h)}, 0)
+	}
 	pollOutstanding := false
 	for i, r := range w.out {
 		var def uint8 = 1
@@ -620,6 +688,43 @@ func (w *world) enabled() (evs []evt, costs []uint8) {
 	if len(w.out) > 0 && !pollOutstanding {
 		add(evt{K: 'A'}, 1)
 	}
+	// hold the next callback of a listener class at a height (one deviation; at most one hold armed or parked at a time)
+	if len(w.armed) == 0 && len(w.parked) == 0 {
+		var fetchHeights, blockHeights []uint8
+		seenH := map[uint8]bool{}
+		for _, r := range w.out {
+			if r.origin == 'f' {
+				fetchHeights = append(fetchHeights, uint8(r.h))
+				if int(r.h) < w.c.maxLen && !seenH[uint8(r.h)] {
+					seenH[uint8(r.h)] = true
+					blockHeights = append(blockHeights, uint8(r.h))
+				}
+			}
+		}
+		for _, s := range w.held {
+			if !seenH[uint8(s.r.h)] {
+				seenH[uint8(s.r.h)] = true
+				blockHeights = append(blockHeights, uint8(s.r.h))
+			}
+		}
+		sort.Slice(blockHeights, func(i, j int) bool { return blockHeights[i] < blockHeights[j] })
+		for _, cl := range w.c.holds {
+			switch cl {
+			case lStore, lVerify:
+				for _, h := range blockHeights {
+					add(evt{K: 'H', O: cl, H: h}, 1)
+				}
+			case lFetch, lCheck:
+				for _, h := range fetchHeights {
+					add(evt{K: 'H', O: cl, H: h}, 1)
+				}
+			case lReorg:
+				if w.headHeight >= 0 {
+					add(evt{K: 'H', O: cl, H: uint8(w.headHeight)}, 1)
+				}
+			}
+		}
+	}
 	if w.fired < w.c.steps {
 		n := len(cur)
 		for f := 0; f <= n; f++ {
@@ -658,6 +763,28 @@ func (w *world) apply(e evt) bool {
 			w.stats["source_reorg_steps"]++
 		}
 		return true
+	case 'H':
+		ok := false
+		for _, cl := range w.c.holds {
+			ok = ok || cl == e.O
+		}
+		if !ok || len(w.armed) != 0 || len(w.parked) != 0 {
+			return false
+		}
+		w.mu.Lock()
+		w.armed[fmt.Sprintf("%c%d", e.O, e.H)] = true
+		w.mu.Unlock()
+		w.stats["listener_holds_armed"]++
+		return true
+	case 'U':
+		for i, p := range w.parked {
+			if p.op == e.O && p.h == uint64(e.H) {
+				w.parked = append(w.parked[:i:i], w.parked[i+1:]...)
+				p.reply <- reply{}
+				return true
+			}
+		}
+		return false
 	}
 	r := w.find(e.O, e.H)
 	if r == nil {
@@ -747,11 +874,15 @@ func (w *world) monitor() {
 	// served blocks: which were persisted; none of them may be a corrupt / forged variant
 	keep := w.held[:0]
 	persisted := 0
+	servedAs := w.last.kindLabel()
 	for _, s := range w.held {
 		select {
 		case err := <-s.cb.Persisted:
 			if err == nil {
 				persisted++
+				if s.variant != vTrue {
+					servedAs = variantName[s.variant] // what the source did when it served the block now being stored
+				}
 				if s.variant != vTrue {
 					w.violate("unverified-block-reported-persisted variant="+variantName[s.variant], map[string]any{"block": s.label()})
 				}
@@ -763,15 +894,14 @@ func (w *world) monitor() {
 				}
 			}
 		default:
-			if s.r.ctx.Err() != nil {
+			if s.r.ctx.Err() != nil && len(w.parked) == 0 {
 				w.infra = "served block neither persisted nor rejected although its stream was cancelled"
 			}
 			keep = append(keep, s)
 		}
 	}
 	w.held = keep
-	var storedNow []felt.Felt
-	var wantReorgs []revRun
+	var storedNow, revertedNow []felt.Felt
 	lstore, lreorg := 0, 0
 	for _, o := range w.log {
 		switch o.kind {
@@ -791,15 +921,15 @@ func (w *world) monitor() {
 				case hdr == nil:
 					w.infra = "no stored header captured for a head-advancing commit"
 				case name == "":
-					w.violate("stored-block-not-a-valid-block trigger="+w.last.kindLabel(), map[string]any{"height": o.height, "hash": o.hash.String()})
+					w.violate("stored-block-not-a-valid-block trigger="+servedAs, map[string]any{"height": o.height, "hash": o.hash.String()})
 				default:
 					ref := getBlk(name).e.Block.Header
 					if !hdr.ParentHash.Equal(ref.ParentHash) || hdr.Timestamp != ref.Timestamp || !hdr.GlobalStateRoot.Equal(ref.GlobalStateRoot) ||
 						hdr.TransactionCount != ref.TransactionCount || hdr.EventCount != ref.EventCount || hdr.Number != ref.Number {
-						w.violate("stored-block-content-differs-from-verified-block trigger="+w.last.kindLabel(), map[string]any{"block": name})
+						w.violate("stored-block-content-differs-from-verified-block trigger="+servedAs, map[string]any{"block": name})
 					}
 					if w.headHeight >= 0 && !hdr.ParentHash.Equal(&w.headHash) || w.headHeight < 0 && !hdr.ParentHash.IsZero() {
-						w.violate("stored-block-does-not-extend-head trigger="+w.last.kindLabel(), map[string]any{"block": name})
+						w.violate("stored-block-does-not-extend-head trigger="+servedAs, map[string]any{"block": name})
 					}
 				}
 				if strings.HasSuffix(w.local, "?") || name == "" {
@@ -808,15 +938,17 @@ func (w *world) monitor() {
 					w.local = name
 				}
 				if w.run != nil {
-					wantReorgs = append(wantReorgs, *w.run)
+					w.pendReorgs = append(w.pendReorgs, *w.run)
 					w.run = nil
 				}
+				w.pendHeads = append(w.pendHeads, pendHead{hash: o.hash})
 				storedNow = append(storedNow, o.hash)
 			case o.height == w.headHeight-1:
 				// the head was reverted
 				w.stats["reverts"]++
 				w.moved += "R"
 				revName := w.nameOf(&w.headHash)
+				revertedNow = append(revertedNow, w.headHash)
 				if int(w.headHeight) < len(cur) && revName != "" && cur[:w.headHeight+1] == revName {
 					w.violate("revert-of-block-the-source-still-has cause="+w.cause,
 						map[string]any{"reverted": revName, "source_now": cur})
@@ -852,7 +984,14 @@ func (w *world) monitor() {
 		w.violate("persisted-signals-differ-from-commits", map[string]any{"persisted_nil": persisted, "commits": len(storedNow)})
 	}
 
-	// emissions
+	// Emissions, checked the way a subscriber applies them: every new-head emission is the oldest stored block not
+	// announced yet (once per stored block, in storage order) and its block has not been reverted in the meantime;
+	// every reorg emission is the oldest reverted range that a store has closed and that was not announced yet.
+	// Announcements may lag behind the commits only while a store-listener callback is parked (a storeTask in flight).
+	storeInFlight := false
+	for _, p := range w.parked {
+		storeInFlight = storeInFlight || p.op == lStore
+	}
 	var gotHeads []felt.Felt
 	for {
 		select {
@@ -863,15 +1002,24 @@ func (w *world) monitor() {
 		}
 		break
 	}
-	if !sameFelts(gotHeads, storedNow) {
-		cls := "order-or-identity"
+	emis := map[string]any{"emitted_heads": feltStrings(gotHeads), "stored_in_this_step": feltStrings(storedNow)}
+	for _, g := range gotHeads {
 		switch {
-		case len(gotHeads) > len(storedNow):
-			cls = "head-announced-for-block-not-stored"
-		case len(gotHeads) < len(storedNow):
-			cls = "stored-block-not-announced"
+		case len(w.pendHeads) == 0:
+			w.violate("newhead-emissions-differ-from-stores head-announced-for-block-not-stored", emis)
+		case w.pendHeads[0].hash != g:
+			w.violate("newhead-emissions-differ-from-stores order-or-identity", emis)
+			w.pendHeads = nil
+		default:
+			if w.pendHeads[0].reverted {
+				w.violate("newhead-announced-after-its-block-was-reverted", emis)
+			}
+			w.pendHeads = w.pendHeads[1:]
 		}
-		w.violate("newhead-emissions-differ-from-stores "+cls, map[string]any{"emitted": feltStrings(gotHeads), "stored": feltStrings(storedNow)})
+	}
+	if len(w.pendHeads) > 0 && !storeInFlight {
+		w.violate("newhead-emissions-differ-from-stores stored-block-not-announced", emis)
+		w.pendHeads = nil
 	}
 	var gotReorgs []revRun
 	for {
@@ -883,16 +1031,32 @@ func (w *world) monitor() {
 		}
 		break
 	}
-	if len(gotReorgs) != len(wantReorgs) {
-		w.violate("reorg-emissions-differ-from-reverted-ranges count", map[string]any{"emitted": fmt.Sprint(gotReorgs), "want": fmt.Sprint(wantReorgs)})
-	} else {
-		for i := range gotReorgs {
-			if gotReorgs[i] != wantReorgs[i] {
-				w.violate("reorg-emissions-differ-from-reverted-ranges range", map[string]any{"emitted": fmt.Sprint(gotReorgs[i]), "want": fmt.Sprint(wantReorgs[i])})
+	for _, g := range gotReorgs {
+		switch {
+		case len(w.pendReorgs) == 0:
+			w.violate("reorg-emissions-differ-from-reverted-ranges count", map[string]any{"emitted": fmt.Sprint(g),
+				"want": "none: no reverted range has been closed by a store and is still unannounced", "open_range": fmt.Sprint(w.run)})
+		case w.pendReorgs[0] != g:
+			w.violate("reorg-emissions-differ-from-reverted-ranges range", map[string]any{"emitted": fmt.Sprint(g), "want": fmt.Sprint(w.pendReorgs[0])})
+			w.pendReorgs = w.pendReorgs[1:]
+		default:
+			w.pendReorgs = w.pendReorgs[1:]
+		}
+	}
+	if len(w.pendReorgs) > 0 && !storeInFlight {
+		w.violate("reorg-emissions-differ-from-reverted-ranges count", map[string]any{"emitted": fmt.Sprint(gotReorgs), "want": fmt.Sprint(w.pendReorgs)})
+		w.pendReorgs = nil
+	}
+	w.stats["reorg_notifications"] += int64(len(gotReorgs))
+	// the order of a revert and an emission inside one step is not observable; a block still unannounced at the END of
+	// the step in which it was reverted is marked, so that a later announcement of it is reported
+	for _, h := range revertedNow {
+		for i := range w.pendHeads {
+			if w.pendHeads[i].hash == h {
+				w.pendHeads[i].reverted = true
 			}
 		}
 	}
-	w.stats["reorg_notifications"] += int64(len(gotReorgs))
 
 	// the local chain is hash-linked and the monitor's view of it is the store's
 	if names := w.chainNames(); names != w.local && !strings.Contains(w.local, "?") {
@@ -984,6 +1148,17 @@ func (w *world) describe() string {
 	for _, r := range w.out {
 		fmt.Fprintf(&b, "%s ", r.code())
 	}
+	for _, p := range w.parked {
+		fmt.Fprintf(&b, "parked:%s ", p.code())
+	}
+	w.mu.Lock()
+	for code := range w.armed {
+		fmt.Fprintf(&b, "armed:%s ", code) // at most one
+	}
+	w.mu.Unlock()
+	if len(w.pendHeads) > 0 || len(w.pendReorgs) > 0 {
+		fmt.Fprintf(&b, "unannounced:%d/%d ", len(w.pendHeads), len(w.pendReorgs))
+	}
 	b.WriteString("| held:")
 	hs := make([]string, 0, len(w.held))
 	for _, s := range w.held {
@@ -1040,7 +1215,7 @@ func replay(t *testing.T, c *config, path []evt, converge bool) (res result) {
 	prev := runtime.GOMAXPROCS(c.workers)
 	defer runtime.GOMAXPROCS(prev)
 	synctest.Test(t, func(t *testing.T) {
-		w := &world{c: c, versions: []string{strings.Repeat("0", c.n0)}, headHeight: -1, stats: map[string]int64{}}
+		w := &world{c: c, versions: []string{strings.Repeat("0", c.n0)}, headHeight: -1, stats: map[string]int64{}, armed: map[string]bool{}}
 		w.fdb = faultdb.New()
 		w.bc = chain.NewNode(w.fdb, c.newState)
 		w.src = &source{calls: make(chan *req, 256)}
@@ -1058,16 +1233,26 @@ func replay(t *testing.T, c *config, path []evt, converge bool) (res result) {
 				}
 			}
 			cbHeight, cbHash = h, hash
+			w.mu.Lock()
 			w.log = append(w.log, o)
+			w.mu.Unlock()
 		})
 		w.syn = jsync.New(w.bc, w.src, log.NewNopZapLogger(), 0, false, w.fdb)
 		w.syn.WithListener(&jsync.SelectiveListener{
 			OnSyncStepDoneCb: func(op string, n uint64, _ time.Duration) {
 				if op == jsync.OpStore {
+					w.mu.Lock()
 					w.log = append(w.log, obs{kind: 's', n: n})
+					w.mu.Unlock()
 				}
+				w.listenerCall(listenerClass(op), n)
 			},
-			OnReorgCb: func(n uint64) { w.log = append(w.log, obs{kind: 'r', n: n}) },
+			OnReorgCb: func(n uint64) {
+				w.mu.Lock()
+				w.log = append(w.log, obs{kind: 'r', n: n})
+				w.mu.Unlock()
+				w.listenerCall(lReorg, n)
+			},
 		})
 		hs := w.syn.SubscribeNewHeads()
 		w.heads = make(chan *core.Block, 1024)
@@ -1107,11 +1292,35 @@ func replay(t *testing.T, c *config, path []evt, converge bool) (res result) {
 			res.conv, res.convSteps = w.converge()
 		}
 		res.viols, res.infra, res.stats, res.depth = w.viols, w.infra, w.stats, len(path)
+		w.mu.Lock()
+		w.shutdown = true // callbacks fired by the shutdown itself (OpFetch of cancelled fetchers) must not park
+		w.mu.Unlock()
 		cancel()
+		for _, p := range w.parked {
+			p.reply <- reply{}
+		}
 		<-w.done
 		synctest.Wait()
 	})
 	return res
+}
+
+// listenerCall is the body of every sync.EventListener callback: it returns at once unless the explorer armed a hold
+// for exactly this (class, height); then it parks as an enabled event until the explorer lets it return.
+func (w *world) listenerCall(class byte, n uint64) {
+	code := fmt.Sprintf("%c%d", class, n)
+	w.mu.Lock()
+	hit := w.armed[code] && !w.shutdown
+	if hit {
+		delete(w.armed, code)
+	}
+	w.mu.Unlock()
+	if !hit {
+		return
+	}
+	r := &req{origin: 'L', op: class, h: n, reply: make(chan reply, 1)}
+	w.src.calls <- r
+	<-r.reply
 }
 
 // converge: the source is stable from now on and answers the oldest outstanding request truthfully; whenever the
@@ -1133,6 +1342,8 @@ func (w *world) converge() (bool, int) {
 		d := w.describe()
 		var e evt
 		switch {
+		case len(w.parked) > 0:
+			e = evt{K: 'U', O: w.parked[0].op, H: uint8(w.parked[0].h)} // a listener callback always returns eventually
 		case len(w.out) > 0 && !seen[d]:
 			seen[d] = true
 			e = evt{K: 'T', O: w.out[0].origin, H: uint8(w.out[0].h)}
